@@ -430,6 +430,15 @@ def run(chk, repo):
     chk.rule("C07.product", "term-wise identities in normal form: product key k1+k2 / value v1*v2 with accumulation; sum "
                             "of common keys last in the chain; unary map; power arms; division arms")
     mul = repo.find(LP, "Poly.__mul__")
+    from ..core import accumulate_guards
+    for ifn_, tested_, stores_ in accumulate_guards(mul):
+        try:
+            same_ = all(Evaluator().ev(k_) == Evaluator().ev(tested_) for _, k_ in stores_)
+        except Inconclusive:
+            same_ = all(unparse(k_) == unparse(tested_) for _, k_ in stores_)
+        chk.decide(same_, "C07.product", W("Poly.__mul__"), "terms accumulated under '%s'" % unparse(ifn_.test),
+                   why="the power that is looked up is not the power that is written: like terms overwrite each other "
+                       "instead of adding up", node=ifn_)
     inner = [n for n in ast.walk(mul) if isinstance(n, ast.If) and " in new_data" in unparse(n.test)]
     chk.require(len(inner) == 1, "Poly.__mul__: accumulate/insert branch not found")
     br = inner[0]
